@@ -176,6 +176,7 @@ fn run(w: &World) -> Result<BufferedBody, ExtractBufferedBodyError> {
     unsafe {
         PULLED = 0;
         http_body_util::verif::BUFFERED = 0;
+        http_body_util::verif::LIMIT_SEEN = None;
     }
     let lim = match w.limit {
         Some(l) => BodySizeLimit::Enabled { max_size: ByteUnit::from(l) },
@@ -204,6 +205,12 @@ fn intact_transport(max_frame_len: usize) {
             assert!(garbage || total as u64 > n || cl.map_or(false, |c| c > n), "size-limit error although body and Content-Length are within the limit");
         }
         (Err(_), _) => panic!("an intact body was refused with something else than a size-limit error (or without any limit)"),
+    }
+    // the bodies of this harness are tiny; what protects the application from a LARGE body is the budget
+    // that first-party code hands to the length-limited reader: a budget above N lets every body between
+    // N and the budget through (replayed natively with a body of N + 1 bytes)
+    if let (Some(n), Some(seen)) = (w.limit, unsafe { http_body_util::verif::LIMIT_SEEN }) {
+        assert!(seen as u64 <= n, "the byte budget handed to the length-limited reader exceeds the configured limit");
     }
     kani::cover!(r.is_ok() && w.limit == Some(total as u64) && total > 0, "body of exactly the limit accepted");
     kani::cover!(r.is_err() && cl.is_none() && w.limit.is_some(), "limit hit while reading, no usable Content-Length");
